@@ -46,7 +46,7 @@ type govItem struct {
 // envTx delivers an untraced environment transaction signed by V.
 func (r *Runner) envTx(msg sdk.Msg) (abci.ResponseDeliverTx, error) {
 	num, seq := r.accountInfo(r.DeliverCtx(), r.ValAddr)
-	bz, err := r.signTx([]sdk.Msg{msg}, nil, nil, []signer{{priv: r.valPriv, pub: r.valPriv.PubKey(), num: num, seq: seq}})
+	bz, err := r.signTx([]sdk.Msg{msg}, nil, nil, nil, []signer{{priv: r.valPriv, pub: r.valPriv.PubKey(), num: num, seq: seq}})
 	if err != nil {
 		return abci.ResponseDeliverTx{}, err
 	}
